@@ -75,6 +75,23 @@ class HTensor:
             m.depth[id(self)] -= 1
 
 
+class _Interrupt(BaseException):
+    """A failure outside the Exception hierarchy (like KeyboardInterrupt / SystemExit raised by a tensor)."""
+
+
+def _sub_tensor(s, mon, name, nbytes, fill):
+    """The same harness behaviour on a subclass of ir.Tensor (frameworks subclass it to convert storage on demand)."""
+    import numpy as np
+
+    class HSub(ir.Tensor):
+        def tofile(self, file):
+            return HTensor.tofile(self, file)
+
+    t = HSub(np.frombuffer(bytes([fill]) * nbytes, dtype=np.uint8), name=name)
+    t.s, t.mon, t._data, t.fail = s, mon, bytes([fill]) * nbytes, None
+    return t
+
+
 # configurations: (name, sizes, same_object_pairs, max_workers, max_shard, fail_tensor, fail_callback_at)
 def configs(tier):
     cs = [
@@ -86,6 +103,12 @@ def configs(tier):
         dict(name="fail_callback", sizes=[5, 5, 3], workers=2, fail_cb=1),
         dict(name="sharded_parallel_inner", sizes=[3, 3, 3, 3], workers=6, shard=6),
         dict(name="two_regular_one_oversized", sizes=[5, 5, 9], workers=3),
+        # one tensor object in two shards, one written by the parallel writer and one by the serial writer
+        dict(name="shared_across_parallel_and_serial_shard", sizes=[5, 3], shared=[0, 1, 0], workers=6, shard=8),
+        # a failure that is a BaseException but not an Exception (KeyboardInterrupt-like)
+        dict(name="fail_tensor_base_exception", sizes=[5, 5, 3], workers=2, fail_tensor=0, fail_kind="base"),
+        # the shared object is an instance of a subclass of ir.Tensor that does work in tofile
+        dict(name="shared_object_tensor_subclass", sizes=[3, 5], shared=[0, 0, 1], workers=2, subclass=True),
     ]
     if tier == "thorough":
         cs += [
@@ -128,8 +151,13 @@ def _expected_files(cfg, root):
 def _make_tensors(cfg, s, mon, with_fail=True):
     objs = []
     for i, n in enumerate(cfg["sizes"]):
-        fail = RuntimeError("boom") if (with_fail and cfg.get("fail_tensor") == i) else None
-        objs.append(HTensor(s, mon, f"t{i}", n, 65 + i, fail))
+        fail = None
+        if with_fail and cfg.get("fail_tensor") == i:
+            fail = _Interrupt("interrupt") if cfg.get("fail_kind") == "base" else RuntimeError("boom")
+        if cfg.get("subclass"):
+            objs.append(_sub_tensor(s, mon, f"t{i}", n, 65 + i))
+        else:
+            objs.append(HTensor(s, mon, f"t{i}", n, 65 + i, fail))
     order = cfg.get("shared") or list(range(len(objs)))
     return [objs[i] for i in order]
 
@@ -193,7 +221,7 @@ def run_one(cfg, root, expected, choices):
                 if idx != list(range(n)):
                     v.append(("callback_not_exactly_once", idx))
         else:
-            want = RuntimeError if cfg.get("fail_tensor") is not None else KeyError
+            want = (_Interrupt if cfg.get("fail_kind") == "base" else RuntimeError) if cfg.get("fail_tensor") is not None else KeyError
             if outcome[0] != "exc" or not isinstance(outcome[1], want):
                 v.append(("failure_not_propagated", repr(outcome)))
             idx = [c[0] for c in mon.cb_calls]
